@@ -50,7 +50,9 @@ def run(pid, tier, replay=None):
             for i in range(ntr):
                 init = [(1, 2412), (2, 2412)] + ([(3, 2412)] if rng.random() < 0.5 else [])
                 run_ = peer_drv.PeerRun(w, g, init, tid=i + 1)
-                lab = []
+                if i % 3 == 0:
+                    run_.unreachable = {rng.choice([1, 2, 3])}       # connect() to this host fails on the spot (no route)
+                lab = [("unreachable", sorted(run_.unreachable))]
                 try:
                     for _ in range(nev):
                         nm = run_.node.local.network_manager
@@ -149,6 +151,7 @@ def run(pid, tier, replay=None):
     # (c) a long deterministic run to the real give-up limit: one unreachable peer, clock jumps of 30 min
     rp_limit = real["MaxAttempts"]
     run_ = peer_drv.PeerRun(w, g, [(1, 2412)], tid=1)
+    run_.unreachable = {1} if seed() % 2 else set()      # odd seeds: the connect() itself fails; even seeds: it is accepted and closed
     try:
         n_att = 0
         for i in range(rp_limit + 40 if not quick else 400):
